@@ -208,6 +208,12 @@ def recursive_program(rnd):
     # parameter that was not passed is null
     prog += [['assign', 'za', C('arrayNew')], ['expr', C('arrayPush', V('za'), N(rnd.randint(1, 9)), S('pushed'))], ['assign', 'zb', C('arrayNew')],
              ['func', 'noargs', ['p'], False, [gen_prog.LOG('noargs', V('p')), ['return', V('p')]]], gen_prog.LOG('zero', V('za'), V('zb'), C('noargs'), C('arrayLength', C('arrayNew')))]
+    # a loop whose test is a raw VALUE (an empty object is true, an empty array and an empty string are false ...): the value decides with
+    # the truthiness of the language at the first test and at every re-test
+    tv = rnd.choice([C('objectNew'), C('objectNew'), C('objectNew', S('a'), V('null')), S('x'), S('0'), N(2), C('arrayNew', N(0)), C('arrayNew'), S(''), C('datetimeNew', N(1970), N(1), N(1))])
+    prog += [['assign', 'tv', tv], ['assign', 'tn', N(0)],
+             ['while', V('tv'), [['assign', 'tn', B('+', V('tn'), N(1))], ['if', [[B('>=', V('tn'), N(3)), [['assign', 'tv', rnd.choice([V('null'), N(0), S(''), C('arrayNew')])]]]], None]]],
+             gen_prog.LOG('truthy-loop', V('tn'))]
     prog.append(gen_prog.LOG('top', C('rec', N(rnd.randint(1, 7)), N(0))))
     prog.append(gen_prog.LOG('again', C('rec', N(rnd.randint(0, 3)), N(rnd.randint(0, 5))), V(loc), V('seen')))
     return prog
